@@ -229,7 +229,12 @@ impl<'a> Tr<'a> {
         let ok = match (t, want) {
             (Ty::Infer, _) | (_, Ty::Infer) => true,
             (a, b) if is_int(a) && is_int(b) => !matches!((a, b), (Ty::Usize, Ty::U8) | (Ty::U8, Ty::Usize)),
-            (Ty::Opt(a), Ty::Opt(b)) | (Ty::List(a), Ty::List(b)) | (Ty::ResPE(a), Ty::ResPE(b)) => {
+            (Ty::Opt(a), Ty::Opt(b))
+            | (Ty::List(a), Ty::List(b))
+            | (Ty::Iter(a), Ty::List(b))
+            | (Ty::List(a), Ty::Iter(b))
+            | (Ty::Iter(a), Ty::Iter(b))
+            | (Ty::ResPE(a), Ty::ResPE(b)) => {
                 let (a, b) = ((**a).clone(), (**b).clone());
                 return self.check_compat(&a, &b);
             }
@@ -351,7 +356,7 @@ impl<'a> Tr<'a> {
             let mut v = v;
             if let Some(a) = &annot {
                 me.check_compat(&v.ty, a)?;
-                if *a != Ty::Range {
+                if *a != Ty::Range && !contains_infer(a) {
                     v.ty = a.clone();
                 }
             }
